@@ -248,6 +248,14 @@ class CombinedDataHandler:
 
         non_modeled_units_list = [units_blocklisted, units_with_zero_baseline, units_with_strange_turnout_factor]
 
+        # blocklisted and zero baseline units are never modeled, so they must not influence which other units
+        # the outlier detection models flag either
+        reporting_units = reporting_units[
+            ~reporting_units.geographic_unit_fips.isin(
+                pd.concat([units_blocklisted, units_with_zero_baseline]).geographic_unit_fips
+            )
+        ]
+
         if fit_turnout_outlier_model and reporting_units.shape[0] > self.n_minimum_for_outlier_detection_model:
             units_with_strange_turnout_factor_modeled = self._fit_outlier_detection_model(
                 reporting_units, "turnout_factor", outlier_z_threshold
